@@ -60,6 +60,9 @@ func reset() {
 				pp.Dispose()
 			}
 		}
+		if pp, ok := s.twin.(gopacket.PooledPacket); ok {
+			pp.Dispose()
+		}
 	}
 	tab = newTable()
 	bufs = map[int][]byte{}
@@ -275,17 +278,27 @@ func doNew(sn, opts int, first string, k int, real bool) string {
 			return tab.decoder(d), idOf, nil
 		}
 	}
-	// reference packet: eager, default options, private copy of the input
+	// reference packet, decoded eagerly.  For an eager packet under test: default options on a private
+	// copy (C04: NoCopy/Pool change nothing).  For a lazy packet under test: the SAME NoCopy/Pool
+	// setting and, with NoCopy, the same buffer (C03 compares lazy with eager "of the same bytes"; the
+	// option sets are compared with each other on the eager packets).
 	tab.resetCounters()
 	twinDec, twinIdOf, twinTr := mkDec()
 	var twin gopacket.Packet
-	private := append([]byte(nil), buf...)
-	tp, _ := protect(func() { twin = gopacket.NewPacket(private, twinDec, gopacket.DecodeOptions{DecodeStreamsAsDatagrams: o.DecodeStreamsAsDatagrams}) })
+	twinBuf := append([]byte(nil), buf...)
+	twinOpts := gopacket.DecodeOptions{DecodeStreamsAsDatagrams: o.DecodeStreamsAsDatagrams}
+	if o.Lazy {
+		twinOpts.NoCopy, twinOpts.Pool = o.NoCopy, o.Pool
+		if o.NoCopy {
+			twinBuf = buf
+		}
+	}
+	tp, _ := protect(func() { twin = gopacket.NewPacket(twinBuf, twinDec, twinOpts) })
 	if tab.runaway {
 		return "runaway"
 	}
 	if tp || twin == nil {
-		lib.Finding("C01", "pkt:panic-escaped:new", "NewPacket with default options panicked")
+		lib.Finding("C01", "pkt:panic-escaped:new", "NewPacket (eager reference packet, recovery on) panicked")
 		return "panic"
 	}
 	s.twin, s.twinIdOf = twin, twinIdOf
